@@ -694,8 +694,20 @@ def c23_vsorder(R):
                 return all(vals) if isinstance(e.op, ast.And) else any(vals)
             raise AnalysisError(f"C23.vsorder: verdict test outside the fragment: {ast.unparse(e)}")
 
+        def raiser(st):
+            """`if <test that is not about the flags>: <flag> = True`: can only move a flag from False to True - the
+            verdict is interpreted for every final combination anyway"""
+            return (
+                isinstance(st, ast.If)
+                and not st.orelse
+                and not any(isinstance(x, ast.Name) and x.id in (S, D) for x in ast.walk(st.test))
+                and all(isinstance(b, ast.Assign) and isinstance(b.targets[0], ast.Name) and b.targets[0].id in (S, D) and isinstance(b.value, ast.Constant) and b.value.value is True for b in st.body)
+            )
+
         def run(stmts, env):
             for st in stmts:
+                if raiser(st):
+                    continue
                 if isinstance(st, ast.If):
                     r = run(st.body if ev(st.test, env) else st.orelse, env)
                     if r is not None:
@@ -711,6 +723,20 @@ def c23_vsorder(R):
         verdict_ok = table == want
         why = f"verdict table (may-equal, may-differ) -> {table}"
         break
+    # a region that only one of the two value sets has makes them possibly different - whichever side has it
+    p_other = [a.arg for a in eq.args.args][1]
+    txt_eq = ast.unparse(eq)
+    other_only = bool(re.search(rf"in self\.regions", txt_eq)) and any(isinstance(lp_, ast.For) and p_other in ast.unparse(lp_.iter) for lp_ in ast.walk(eq))
+    self_only = bool(re.search(rf"not in {p_other}\.regions", txt_eq)) or any(isinstance(lp_, ast.For) and ("|" in ast.unparse(lp_.iter) or "union" in ast.unparse(lp_.iter)) for lp_ in ast.walk(eq))
+    R.check(
+        other_only and self_only,
+        m,
+        eq,
+        "ValueSet.__eq__: a region only one side has counts as a possible difference, on either side",
+        "ValueSet.__eq__ walks the regions of one operand only: a region that only the other operand has is ignored, and "
+        "{global: 13, heap: 0x20} == {global: 13} is a definite True although the left side may be the heap pointer",
+        construct="ValueSet.__eq__: regions of one side only",
+    )
     R.check(
         verdict_ok,
         m,
